@@ -31,6 +31,14 @@ func NewVerifTransport(scope defn.Scope, linkType defn.LinkType, mtu int) *Verif
 	return t
 }
 
+// NewVerifTransportFD is NewVerifTransport with fd:// URIs (faces with a null URI cannot be updated through management).
+func NewVerifTransportFD(fd int, scope defn.Scope, linkType defn.LinkType, mtu int) *VerifTransport {
+	t := &VerifTransport{closed: make(chan struct{})}
+	t.makeTransportBase(defn.MakeFDFaceURI(fd), defn.MakeFDFaceURI(fd), PersistencyPersistent, scope, linkType, mtu)
+	t.running.Store(true)
+	return t
+}
+
 func (t *VerifTransport) String() string {
 	return "VerifTransport, FaceID=" + strconv.FormatUint(t.faceID, 10)
 }
